@@ -444,12 +444,17 @@ func ruleC14_2(c *Ctx) {
 			// and it must be filled from the parameter by copy
 		})
 		copies := func(fn *ssa.Function) bool {
-			return callsWhere(fn, func(cc *ssa.CallCommon) bool {
-				b, ok := cc.Value.(*ssa.Builtin)
-				return ok && (b.Name() == "copy" || b.Name() == "append")
-			}) || callsWhere(fn, func(cc *ssa.CallCommon) bool {
-				return callIsPkgFunc(cc, "bytes", "Clone") || callIsPkgFunc(cc, "slices", "Clone")
-			})
+			for g := range c.P.StaticTree(fn) { // (the copy may sit in a helper such as `duplicate(b)`)
+				if callsWhere(g, func(cc *ssa.CallCommon) bool {
+					b, ok := cc.Value.(*ssa.Builtin)
+					return ok && (b.Name() == "copy" || b.Name() == "append")
+				}) || callsWhere(g, func(cc *ssa.CallCommon) bool {
+					return callIsPkgFunc(cc, "bytes", "Clone") || callIsPkgFunc(cc, "slices", "Clone")
+				}) {
+					return true
+				}
+			}
+			return false
 		}
 		desc := "Set stores a copy made inside the method, not the caller's buffer"
 		if nSet == 0 {
@@ -544,17 +549,39 @@ func ruleC14_3(c *Ctx) {
 						return
 					}
 					nl++
-					guarded := false
-					for _, dc := range dominatingConds(u.Block()) {
-						// errors.Is(err, os.ErrNotExist) true edge, or the comma-ok of a map lookup false edge
-						if call, ok := dc.cond.(*ssa.Call); ok && callIsPkgFunc(&call.Call, "errors", "Is") && dc.onTrue {
-							guarded = true
-						}
-						if ex, ok := dc.cond.(*ssa.Extract); ok && !dc.onTrue {
-							if lk, ok := ex.Tuple.(*ssa.Lookup); ok && lk.CommaOk {
-								guarded = true
+					guardedAt := func(blk *ssa.BasicBlock) bool {
+						for _, dc := range dominatingConds(blk) {
+							// errors.Is(err, os.ErrNotExist) true edge, or the comma-ok of a map lookup false edge
+							if call, ok := dc.cond.(*ssa.Call); ok && callIsPkgFunc(&call.Call, "errors", "Is") && dc.onTrue {
+								return true
+							}
+							if ex, ok := dc.cond.(*ssa.Extract); ok && !dc.onTrue {
+								if lk, ok := ex.Tuple.(*ssa.Lookup); ok && lk.CommaOk {
+									return true
+								}
 							}
 						}
+						return false
+					}
+					guarded := guardedAt(u.Block())
+					if !guarded && f != fn && f.Parent() == nil {
+						// the error is built in a helper (`notExistError(key)`): every call of it in this method's tree
+						// stands under the absence test
+						inTree := map[*ssa.Function]bool{}
+						for _, g := range c.reachableFrom(fn) {
+							inTree[g] = true
+						}
+						sites, all := 0, true
+						for _, cs := range c.P.Callers(f) {
+							if !inTree[cs.Caller] {
+								continue
+							}
+							sites++
+							if !guardedAt(cs.Instr.Block()) {
+								all = false
+							}
+						}
+						guarded = sites > 0 && all
 					}
 					if !guarded {
 						bad = c.P.InstrPos(in) + ": driver.ErrNotExist is produced outside the absence test (missing file / map miss)"
